@@ -742,6 +742,92 @@ Definition view_sidecar (s : schema) (key : N * str) (k : sinks) : option (list 
 Definition view_snapshot (s : schema) (key : N * str) (k : sinks) : option (list event) :=
   read_snapshot s (write_snapshot s (of_stream s key (k_buffer k))).
 
+(* ---------- the sidecar is a cache that can be lost while the store lives ----------
+   continuity_stream_cache.rs: `append_best_effort` creates the file when it is absent (so after a loss it holds
+   the frames appended since); `try_replay` reads it and refuses it unless the seqs are 0,1,2,..;
+   continuities.rs `replay_events` (the past of a late subscriber, branch / handoff / status reads) serves the
+   sidecar when `try_replay` accepts it and otherwise replays the stream from the log and rebuilds the file.
+   The shape of the two checks is read from the source (tools/gen/sinks.py -> gen_replay_check). *)
+Record replay_check := {
+  rc_first_zero : bool;      (* the first line must carry seq 0 (counter starts at 0) *)
+  rc_successor : bool;       (* every line must carry the seq after the previous line's *)
+  rc_empty_refused : bool;   (* a file without frames is refused *)
+  rc_fallback_log : bool     (* replay_events: refused / absent => the stream is replayed from the log *)
+}.
+Definition wf_replay_check (rc : replay_check) : bool :=
+  rc_first_zero rc && rc_successor rc && rc_empty_refused rc && rc_fallback_log rc.
+Definition rc_code : replay_check := {| rc_first_zero := true; rc_successor := true; rc_empty_refused := true; rc_fallback_log := true |}.
+
+Inductive hstep :=
+| HEmit (e : event)          (* an append path: log, sidecar, buffer, broadcast *)
+| HLose (key : N * str)      (* one stream's sidecar disappears *)
+| HLoseAll                   (* the sidecar directory disappears *)
+| HReplay (key : N * str).   (* replay_events of a stream *)
+
+Definition side_key (x : N * str * str) : N * str := (fst (fst x), snd (fst x)).
+Definition side_of (key : N * str) (sd : list (N * str * str)) : list str :=
+  map (fun x => snd x) (filter (fun x => key_eqb (side_key x) key) sd).
+Definition drop_key (key : N * str) (sd : list (N * str * str)) : list (N * str * str) :=
+  filter (fun x => negb (key_eqb (side_key x) key)) sd.
+
+Fixpoint follows (es : list event) : bool :=
+  match es with
+  | e :: r => match r with e' :: _ => (e_seq e' =? e_seq e + 1) && follows r | [] => true end
+  | [] => true
+  end.
+Definition first_zero (es : list event) : bool :=
+  match es with e :: _ => e_seq e =? 0 | [] => true end.
+
+(* None: no file, unreadable line, or refused *)
+Definition try_replay (rc : replay_check) (s : schema) (key : N * str) (sd : list (N * str * str)) : option (list event) :=
+  match side_of key sd with
+  | [] => if rc_empty_refused rc then None else Some []
+  | ls => match map_opt (read_line s) ls with
+          | Some es => if (negb (rc_first_zero rc) || first_zero es) && (negb (rc_successor rc) || follows es) then Some es else None
+          | None => None
+          end
+  end.
+
+Definition with_sidecar (k : sinks) (sd : list (N * str * str)) : sinks :=
+  {| k_log := k_log k; k_sidecar := sd; k_buffer := k_buffer k; k_live := k_live k |}.
+
+Definition replay_events (rc : replay_check) (s : schema) (key : N * str) (k : sinks) : option (list event) * sinks :=
+  match try_replay rc s key (k_sidecar k) with
+  | Some es => (Some es, k)
+  | None =>
+    if rc_fallback_log rc then
+      match view_log s key k with
+      | Some es =>
+        (Some es,
+         match es with
+         | [] => k
+         | _ => with_sidecar k (drop_key key (k_sidecar k) ++ map (fun e => (fst key, snd key, write_line s e)) es)
+         end)
+      | None => (None, k)
+      end
+    else (None, k)
+  end.
+
+Definition hstep_run (rc : replay_check) (s : schema) (k : sinks) (h : hstep) : sinks :=
+  match h with
+  | HEmit e => emit s k e
+  | HLose key => with_sidecar k (drop_key key (k_sidecar k))
+  | HLoseAll => with_sidecar k []
+  | HReplay key => snd (replay_events rc s key k)
+  end.
+Definition run_hist (rc : replay_check) (s : schema) (hs : list hstep) : sinks := fold_left (hstep_run rc s) hs sinks0.
+Definition emitted (hs : list hstep) : list event :=
+  flat_map (fun h => match h with HEmit e => [e] | _ => [] end) hs.
+
+(* the seqs of every stream are 0,1,2,.. in emission order (the store's numbering, C01) *)
+Fixpoint seqs_from (n : N) (es : list event) : bool :=
+  match es with [] => true | e :: r => (e_seq e =? n) && seqs_from (n + 1) r end.
+
+(* what a fresh reader of the log finds right after a frame was handed to `append`: the text form of
+   `EventLog::append` (write the line, then flush); lw_flush says the flush is unconditional *)
+Record log_write := { lw_writes_line : bool; lw_flush : bool; lw_side_flush : bool }.
+Definition wf_log_write (w : log_write) : bool := lw_writes_line w && lw_flush w && lw_side_flush w.
+
 (* ---------- emit sites of the source (tools/gen/sinks.py -> Gen/Sinks.v) ----------
    `emit` above hands ONE value to all four sinks.  The extractor records, for every place where ripd publishes
    a frame, whether the same unmodified binding feeds the log append, the store next to it (sidecar or
